@@ -226,6 +226,9 @@ func (b *unboundBuilder) Parse(s string) (*Literal, error) {
 	case "text":
 		return b.Build(Text, v)
 	case "blob":
+		if len(v) < 2 || v[0] != '[' || v[len(v)-1] != ']' {
+			return nil, fmt.Errorf("literal.Parse: blob values must be enclosed in square brackets; found %q", v)
+		}
 		values := v[1 : len(v)-1]
 		if values == "" {
 			return b.Build(Blob, []byte{})
